@@ -111,7 +111,7 @@ def run_case(mon, base, idx, dname, assignment, xname, sh):
                 b"CPATH": os.path.join(d, b"include"), b"PKG_CONFIG_PATH": b"/p:" + os.path.join(d, b"pkgconfig") + b":/q"}]
         QUERIES = BASE_QUERIES + [(sc, st) for sc in ["all", "build", "launch", "process:web"] for st in own]
         for cycle in range(4):
-            rep = mon.call({"op": "read_apply", "dir": hx(d), "queries": enc_queries(QUERIES)})
+            rep = mon.call({"op": "read_apply", "dir": hx(d), "queries": enc_queries(QUERIES), "vanish": cycle == 2 and idx % 3 == 0 and style == 0})
             if "err" in rep:
                 sh.violation("read:error", "read_from_layer_dir failed on %r: %s" % (assignment, rep["detail"]), case)
                 return
@@ -138,6 +138,27 @@ def run_case(mon, base, idx, dname, assignment, xname, sh):
                              % (cycle + 1, vp.snap_diff(before, after)), case)
                 return
             sh.count("cycles")
+        if idx % 4 == 1 and "absent" in assignment:
+            # the same process reads the same layer once more after one of the standard directories has appeared - with the layer directory's
+            # timestamp put back to what it was (a restored cache, a tool that preserves times): what counts is what is there now
+            sub = SUBS[list(assignment).index("absent")]
+            st = os.stat(real)
+            os.mkdir(os.path.join(real, sub))
+            os.utime(real, ns=(st.st_atime_ns, st.st_mtime_ns))
+            rep = mon.call({"op": "read_apply", "dir": hx(d), "queries": enc_queries(QUERIES)})
+            if "err" in rep:
+                sh.violation("read:error", "read_from_layer_dir failed on the re-read: %s" % rep["detail"], case)
+                return
+            for i, (scope, start) in enumerate(QUERIES):
+                sh.evaluations += 1
+                want = envmodel.apply(entries, scope, start, layer_dir=d)
+                got = dec_env(rep["results"][i]["result"])
+                if got != want:
+                    keys = sorted(k for k in set(got) | set(want) if got.get(k) != want.get(k))
+                    sh.violation("implicit:reread:%s" % keys[0].decode(), "layer %r after %s/ appeared (layer directory mtime unchanged), same process: apply(%s, %r) gives %r, expected %r"
+                                 % (dict(zip([s_.decode() for s_ in SUBS], assignment)), sub.decode(), scope, start, {k: got.get(k) for k in keys}, {k: want.get(k) for k in keys}), case)
+                    return
+            sh.count("rereads_after_change")
         if any(k not in ("absent", "dir") for k in assignment):
             sh.nontrivial.add((tuple(assignment), xname))
             sh.sample({"layer": dict(zip([s.decode() for s in SUBS], assignment)), "explicit": xname,
